@@ -51,7 +51,9 @@ stats = {"gen_cases": 0, "gen_miss": 0, "wf_ok": 0, "wf_ok_roundtrip": 0, "print
          "freeform": 0, "freeform_agree": 0, "mutants_text": 0, "mutants_text_agree": 0,
          "mutants_text_semantic": 0, "mutants_text_impl_crash": 0, "corpus_files": 0, "corpus_fixpoint": 0,
          "corpus_model_agree": 0, "float_fmt": 0, "float_parse": 0, "opcodes_seen": {}, "item_kinds": {},
-         "operand_kinds": {}, "error_kinds": {}, "corpus_nonfinite_float": 0}
+         "operand_kinds": {}, "error_kinds": {}, "corpus_nonfinite_float": 0, "temp_counter_checked": 0,
+         "temp_counter_nonzero": 0, "temp_counter_agree": 0, "api_lc_clash": 0, "reread_loaded_linked": 0,
+         "lc_named_cases": 0}
 distinct = set()
 
 
@@ -139,7 +141,7 @@ def parse_framed(out):
             continue
         cur["lines"].append(s)
         w = s.split(" ", 2)
-        if w[0] in ("build", "scan1", "scan2", "wf", "err", "link", "crash", "baddesc"):
+        if w[0] in ("build", "scan1", "scan2", "wf", "err", "link", "crash", "baddesc", "lasttemp", "lasttemp3"):
             cur[w[0]] = s[len(w[0]) + 1:]
         elif w[0] == "run":
             cur.setdefault("runs", []).append(s[4:])
@@ -285,6 +287,79 @@ def census(mods):
                         bump(stats["operand_kinds"], k)
 
 
+def temp_item_num(name):
+    """process_reserved_name: the number of a reserved temporary item name `.lc<digits>`"""
+    m = re.fullmatch(rb"\.lc(\d*)", name)
+    if not m:
+        return None
+    return min(int(m.group(1) or b"0"), 2 ** 64 - 1) % 2 ** 32
+
+
+def temp_counter_defects(canon, lasttemp):
+    """the requirement on module->last_temp_item_num, stated on the canonical text of the scanned modules: it is
+    at least the number of every labelled `.lcN` item of its module, so that the `.lc<counter+1>` items the loader
+    makes for string / floating immediates are new names.  Returns [(module index, item name, counter)]."""
+    try:
+        counters = [int(x) for x in lasttemp.split()]
+    except ValueError:
+        return [(-1, "?", lasttemp)]
+    bad, mi, inside = [], -1, False
+    for ln in canon.split(b"\n"):
+        m = re.match(rb"^([^\s:#]+):", ln)
+        rest = ln[m.end():].strip() if m else ln.strip()
+        if not inside:
+            if m and rest.startswith(b"module"):
+                mi, inside = mi + 1, True
+            continue
+        if rest.startswith(b"endmodule"):
+            inside = False
+            continue
+        if m:
+            k = temp_item_num(m.group(1))
+            if k is not None and (mi >= len(counters) or counters[mi] < k):
+                bad.append((mi, m.group(1).decode("latin1"), counters[mi] if mi < len(counters) else None))
+    return bad
+
+
+def check_temp_counter(tag, replay, canon, h_last, m_last, text):
+    """(1) requirement, (2) model of the scanner's bookkeeping vs the scanner"""
+    if h_last is None:
+        return
+    stats["temp_counter_checked"] += 1
+    if any(c != "0" for c in h_last.split()):
+        stats["temp_counter_nonzero"] += 1
+    bad = temp_counter_defects(canon, h_last)
+    if bad:
+        ck.violation(dict(replay, impl_output="last_temp_item_num per module: " + h_last,
+                          model_output="last_temp_item_num per module: " + str(m_last),
+                          spec_verdict="module %d has item %s but its counter is %s: the loader will name the item of the "
+                                       "next string/floating immediate .lc%s" % (bad[0] + (int(bad[0][2] or 0) + 1,)),
+                          text=text.decode("latin1")[:3000]),
+                     what="after MIR_scan_string the module's temp-item counter is below a `.lcN` item of the module "
+                          "(%s text): loading it can fail with `Repeated item declaration`" % tag,
+                     signature="C10:temp-item-counter-too-small")
+    elif m_last is not None and m_last != h_last:
+        ck.broken_ties.append({"kind": "correspondence", "name": "last_temp_item_num model vs MIR_scan_string (%s)" % tag,
+                               "impl": h_last, "model": m_last, "text": text.decode("latin1")[:3000]})
+    elif m_last is not None:
+        stats["temp_counter_agree"] += 1
+
+
+def run_parts(r):
+    return r.split(" ", 1)[1].split(" | ")
+
+
+def api_lc_clash(impl, t1):
+    """the context built through the API keeps last_temp_item_num = 0 whatever the item names are (only the readers
+    bump it), so a module built with `.lcN` item names may clash with the loader's own names: a misuse of reserved
+    names through the API, not a text round-trip matter.  The re-read contexts must still load."""
+    link = impl.get("link", "")
+    parts = link.split(" | ")
+    return (len(parts) == 3 and parts[1] == "ok" and parts[2] == "ok" and
+            parts[0].startswith("Repeated item declaration .lc") and
+            re.search(rb"^\.lc\d*:", t1, re.M) is not None)
+
+
 def evaluate_case(cid, lines, mods, impl, mod, mscan, probe):
     """classify one generated case.  Returns nothing; reports through ck / stats."""
     replay = {"input": {"kind": "description", "lines": lines}, "probe": probe,
@@ -343,11 +418,25 @@ def evaluate_case(cid, lines, mods, impl, mod, mscan, probe):
     scan1 = impl.get("scan1", "")
     t2, t3 = impl.get("text2"), impl.get("text3")
     runs = impl.get("runs", [])
-    run_diff = [r for r in runs if r.split(" ", 1)[1].split(" | ")[0] != r.split(" ", 1)[1].split(" | ")[1]]
+    api_clash = api_lc_clash(impl, t1)
+    if re.search(rb"^\.lc\d*:", t1, re.M):
+        stats["lc_named_cases"] += 1
+    if api_clash:
+        stats["api_lc_clash"] += 1
+    # results in the API-built context, the context read from text1 and the context read from text2
+    run_diff = [r for r in runs if len(set(run_parts(r)[1 if api_clash else 0:])) != 1 or "nolink" in run_parts(r)[1:]]
     stats["runs"] += len(runs)
     stats["runs_equal"] += len(runs) - len(run_diff)
+    if runs and scan1.startswith("ok") and impl.get("link", "ok | ok | ok").split(" | ")[1:] == ["ok", "ok"]:
+        stats["reread_loaded_linked"] += 1
     crashed = "crash" in impl
-    p_ok = scan1.startswith("ok") and t2 == t1 and not run_diff and not crashed and "link" not in impl
+    p_ok = scan1.startswith("ok") and t2 == t1 and not run_diff and not crashed and ("link" not in impl or api_clash)
+    if scan1.startswith("ok") and t2 is not None:
+        check_temp_counter("written", replay, t2, impl.get("lasttemp"), (mscan or {}).get("lasttemp"), t1)
+        if t3 is not None and impl.get("lasttemp3") != impl.get("lasttemp"):
+            ck.violation(dict(replay, impl_output="%s then %s" % (impl.get("lasttemp"), impl.get("lasttemp3")), text1=t1.decode("latin1")),
+                         what="temp-item counters differ between the first and the second reading of the same text",
+                         signature="C10:temp-item-counter-unstable")
     what_fails = ("scanner crashed: " + impl.get("crash", "") if crashed and not scan1 else
                   "scan of the written text is rejected: " + scan1 if not scan1.startswith("ok") else
                   "re-written text differs from the written text" if t2 != t1 else
@@ -548,7 +637,9 @@ def run_generated(rng, table):
         ck.sample({"description": lines[:25], "wf": (mod.get(cid) or {}).get("wf"),
                    "text1": (impl.get(cid, {}).get("text1") or b"").decode("latin1")[:600]})
     ck.stage("generated", cases=len(cases), wf_ok=stats["wf_ok"], roundtrip=stats["wf_ok_roundtrip"],
-             gen_miss=stats["gen_miss"], probes=stats["probe"])
+             gen_miss=stats["gen_miss"], probes=stats["probe"], lc_named_cases=stats["lc_named_cases"],
+             reread_loaded_linked_run=stats["reread_loaded_linked"], api_lc_clash=stats["api_lc_clash"],
+             temp_counter_nonzero=stats["temp_counter_nonzero"])
     return cases, impl
 
 
@@ -574,6 +665,8 @@ def compare_scans(tag, texts, count_key, agree_key):
         h_ok, m_ok = "ok" in h, "ok" in m
         if h_ok and m_ok and h["ok"] == m["ok"]:
             stats[agree_key] += 1
+            check_temp_counter(tag, {"input": {"kind": "text", "text": t.decode("latin1")}}, h["ok"], h.get("lasttemp"),
+                               m.get("lasttemp"), t)
         elif (not h_ok) and (not m_ok):
             stats[agree_key] += 1
             bump(stats["error_kinds"], h.get("err", "")[:60])
@@ -768,6 +861,7 @@ def run_corpus(rng):
         elif "ok" in m and m["ok"] == a["ok"]:
             stats["corpus_model_agree"] += 1
             distinct.add(hash(a["ok"]))
+            check_temp_counter("corpus", rep, a["ok"], a.get("lasttemp"), m.get("lasttemp"), t)
         else:
             ck.broken_ties.append({"kind": "correspondence", "name": "scanner-model-vs-MIR_scan_string (corpus)",
                                    "file": cid, "model": m.get("err", "ok"),
